@@ -113,6 +113,11 @@ def _delta_crash(deadline, rng, tier):
     return witness.search('C15', 'U-PARSE', {}, tier, rng.randrange(1 << 30), deadline=deadline)
 
 
+def _large(deadline, rng, tier):
+    from . import witness_depth
+    return witness_depth.search_large(deadline, rng)
+
+
 def _depth(deadline, rng, tier):
     from . import witness_depth
     return witness_depth.search_all(deadline, rng, tier)     # a LIST: one obligation per shape and stage
@@ -126,11 +131,11 @@ def _header(deadline, rng, tier):
 # property -> [(suite name, function, what is not under contract, stated bound)]
 SUITES = {
     'C04': [('label_scoping', _labels, 'surfacing of E400/E420 through the resolver',
-             'random function bodies: <= 12 statements, 2 label names, nesting depth <= 3; gotos, conditional gotos, labels, blocks, if-blocks')],
+             'random function bodies: <= 12 statements, 2 label names, nesting depth <= 3; gotos, conditional gotos, labels, blocks, if-blocks; each through the scoper alone (counts of E400/E420) and through the whole pipeline (E400/E420 reported exactly when expected, no stage fails on a poisoned statement)')],
     'C05': [('scoping_and_skipped_declarations', _scope, 'the tree walk of variable_references.rs (the Analyzable impls: where and in which order the scope-stack and pruning functions are called), and the surfacing of the errors through the resolver',
-             '14 fixed programs; every body of <= 4 (thorough: <= 6) items over {declare a, declare b, use a, use b, conditional goto, label, open block, close block} with valid jumps (947 / 30806 bodies, empty blocks included); 600 (thorough: 6000) random function bodies: <= 24 statements, nesting depth <= 3, 8 variable names, 2 parameters, 2 constants; declarations, assignments, (empty) blocks, if/else, conditional gotos, closing gotos, labels, loops; verdict by an independent definitely-declared dataflow')],
+             '14 fixed programs; 320 bodies of the family (goto placement x declaration before/after the goto x what stands between label and use x where the use stands); every body of <= 4 (thorough: <= 6) items over {declare a, declare b, use a, use b, conditional goto, label, open block, close block} with valid jumps (947 / 30806 bodies, empty blocks included); 600 (thorough: 6000) random function bodies: <= 24 statements, nesting depth <= 3, 8 variable names, 2 parameters, 2 constants; declarations, assignments, (empty) blocks, if/else, conditional gotos, closing gotos, labels, loops; verdict by an independent definitely-declared dataflow')],
     'C06': [('statement_placement', _placement, 'surfacing of E800/E801/E840 through the resolver',
-             'random function bodies: <= 12 statements, nesting depth <= 3; loop, if/else with and without braces, goto, blocks'),
+             'random function bodies: <= 12 statements, nesting depth <= 3; loop, if/else with and without braces, goto, blocks; each through the analyzer alone and through the whole pipeline (the counts of E840/E800/E801 REPORTED equal the counts by construction)'),
             ('lint_l1800', _l1800, 'the path from linter to reported lints; typer in between',
              'random placement-valid bodies (depth <= 4): exactly one L1800 per braced branch whose first statement is loop, none otherwise')],
     'C07': [('operators_and_calls', _types, 'the typer (unification, Autocoerce insertion)',
@@ -152,13 +157,13 @@ SUITES = {
             ('named_length_behind_pointer', _order_extra, 'typer: resolution of named lengths in declaration order',
              '2 single programs, one obligation each: a structure with a member of type &[N]i32 declared before / after the constant N'),
             ('permutation_invariance', _invariance, 'scoper name resolution (use_struct/use_constant), declaration sorting',
-             'modules of 2..6 declarations drawn from 15 templates (constants, structures, functions; shared names across namespaces, missing dependencies, duplicates): every one of 8 (thorough: all) permutations accepted or rejected alike')],
+             'modules of 2..6 declarations drawn from 20 templates (constants, structures, functions; shared names across namespaces, missing dependencies, duplicates): every one of 8 (thorough: all) permutations accepted or rejected alike; templates include declarations without a body (extern heads) and functions whose parameters and locals share their parameter names')],
     'C12': [('module_visibility', _modules, 'expand() (import fix-point), path resolution in context',
-             '25 module sets of 2..4 files (public/private function, constant, structure, opaque structure; direct, missing, transitive, diamond, duplicate, mutual and late imports; relative paths; look-alike file names) x file orders')],
+             '28 module sets of 2..4 files (public/private function, constant, structure, opaque structure; direct, missing, transitive, diamond, duplicate, mutual and late imports; relative paths; look-alike file names; an empty or comment-only file and a bystander module among the files) x file orders')],
     'C13': [('determinism', _determinism, 'HashMap/HashSet iteration order in scoper/typer/expander',
              'invalid and valid samples of the repository plus 4 constructed multi-error modules, each compiled in 3 (thorough: 5) fresh processes'),
             ('diagnostic_locations', _locations, 'alpha parser span bookkeeping (location_of_span, combined_with call sites), error.rs',
-             'every Location in the diagnostics of 10 multi-line constructs, 80 by-construction rejected programs, 60 (thorough: all) invalid samples and 40 CRLF variants: inside the source, starting on the reported line'),
+             'every Location in the diagnostics of 10 multi-line constructs, 120 (thorough: all 270) prefixes of one module cut at arbitrary characters (the file ends at its last token), 80 by-construction rejected programs, 60 (thorough: all) invalid samples and 40 CRLF variants: inside the source, starting on the reported line'),
             ('rendering', _render, 'error.rs build_report/write and the ariadne renderer',
              'the diagnostics of <= 120 by-construction rejected programs and 40 (thorough: all) invalid samples x 4 colour/charset configurations: no failure, no escape sequence when colour is off, ASCII when colour is off and arrows are ascii'),
             ('alpha_lexer_spans', _lexa, 'none (spans are also proved: U-LEXA); kept as replay source', 'as C09.alpha_lexer_tokens'),
@@ -166,16 +171,18 @@ SUITES = {
              'as C09.alpha_lexer_tokens with every line end written CRLF')],
     'C14': [('alpha_lexer_tokens', _lexa, 'agreement of the two lexers (each is verified against its own spec)', 'as C09.alpha_lexer_tokens'),
             ('delta_lexer_tokens_and_agreement', _lexd, 'classification of every lexeme by the second-generation lexer; agreement of the two lexers',
-             'the token sequences of C09.alpha_lexer_tokens through the second-generation lexer (kind, value type, payload by construction); 48 inputs with an invalid lexeme must be rejected by both lexers'),
+             'the token sequences of C09.alpha_lexer_tokens through the second-generation lexer (kind, value type, payload by construction); 48 inputs with an invalid lexeme and 30 literals with two faults (a first fault and no closing quote) must be rejected by both lexers, which must name the same faults in the same order, the first fault first'),
             ('alpha_lexer_tokens_crlf', _lexa_crlf, 'the trusted model of str::split_inclusive / strip_suffix', 'as C09.alpha_lexer_tokens with every line end written CRLF')],
     'C15': [('delta_front_end_crash_search', _delta_crash, 'XML dumps, recursion depth',
              'fixed seeds, boundary runs of every token (127..1000 repeats), inputs at the token limit, repository samples, token soup of length <= 4 (thorough: <= 6)'),
             ('invalid_lexemes_rejected', _lexd_invalid, 'which bytes and escapes the lexer accepts inside literals',
              '48 inputs with one invalid lexeme (control characters in literals and between tokens, bad or unclosed escapes, unclosed quotes, bad digits, keyword and misspelt suffixes, stray symbols): rejected by both lexers'),
+            ('large_valid_modules', _large, 'the capacity arithmetic of the token and node buffers on large inputs (proved per function, but only under the preconditions its callers establish)',
+             '16 well-formed modules of 100..250 KiB (4 kinds of declaration repeated; 0.15..0.47 tokens per byte, up to ~120000 tokens): accepted by lexer, parser and header extraction without diagnostics'),
             ('deep_nesting', _depth, 'recursion depth of the parser (unbounded stack is an assumption of the proof); the XML printer',
              '16 shapes of valid modules (nested expressions, blocks, ifs, literals, calls, types; long lists and chains) with 3000 levels/items, through (lex, parse, header) and through the XML dumps')],
     'C17': [('header_xml', _header, 'refs_ok (no reference crosses a zone) on the parser side; XML dump',
-             'random modules of 1..6 declarations of 8 kinds, public or private; header XML compared with the tree XML restricted to Public declarations')],
+             'random modules of 1..6 declarations of 9 kinds (imports included), public or private; header XML compared with the tree XML restricted to Public declarations')],
 }
 BUDGET = {'quick': 8, 'thorough': 120}
 
